@@ -416,6 +416,8 @@ def save_stage(chk):
     # --- in-process: a failure raised by the compressor (not a system call)
     python_level_faults(chk)
     interrupt_faults(chk)
+    fault_combinations(chk, scenarios, baselines)
+    save_sequences(chk)
 
 
 def _eval_mismatches(chk, name, terms, meta, ok_def, ty, shard=40):
@@ -553,6 +555,139 @@ def interrupt_faults(chk):
                                         f"(shutdown goes on) but temporary files were left behind: {others}", case)
             finally:
                 shutil.rmtree(root, ignore_errors=True)
+
+
+def fault_combinations(chk, scenarios, baselines):
+    """Two faults in one save: the creation of the temporary file fails (EACCES / EPERM: the data
+    directory is not writable) while an old state file exists, and whatever the code does next is
+    then killed, or made to fail, at every further file-system call it makes."""
+    pool = ThreadPoolExecutor(max_workers=12)
+    firsts = []
+    for sc, base in zip(scenarios, baselines):
+        if base["error"] or sc.old is None or sc.n > 300:
+            continue
+        atts = base["trace"]["attempts"]
+        if not atts or atts[0]["kind"] not in ("openat", "open", "creat"):
+            continue
+        sc.combo_payload = expected_payload(sc.spec("x")) or gunzip_or_none(base["snapshot"].get(b"state.json.gz") or b"")
+        for errno_ in ("EACCES", "EPERM"):
+            firsts.append((sc, (atts[0]["site"][0], atts[0]["site"][1], errno_)))
+    phase1 = list(pool.map(lambda f: f[0].run(inject=f[1]), firsts))
+    jobs = []
+    for (sc, first), r in zip(firsts, phase1):
+        chk.count(1, nontrivial_key=("combo1", sc.action, sc.n, sc.old_kind, first[2]))
+        chk.dist("fault-combination:temp-creation-fails")
+        _judge_combo(chk, sc, first, None, r)
+        if r["error"]:
+            continue
+        later = [a for a in r["trace"]["attempts"] if a["index"] >= (r["trace"]["injected"] or 0) and a["kind"] != first[0]
+                 and a["site"] != (first[0], first[1])]
+        for a in later:
+            for what in ("kill", ERRNOS.get(a["kind"], ["EIO"])[0]):
+                jobs.append((sc, first, (a["site"][0], a["site"][1], what)))
+    results = list(pool.map(lambda j: j[0].run(inject=[j[1], j[2]]), jobs))
+    pool.shutdown()
+    for (sc, first, second), r in zip(jobs, results):
+        chk.count(1, nontrivial_key=("combo2", sc.action, sc.n, sc.old_kind, first[2], second))
+        chk.dist("fault-combination:then-" + ("crash" if second[2] == "kill" else "failure"))
+        _judge_combo(chk, sc, first, second, r)
+
+
+def _judge_combo(chk, sc, first, second, r):
+    case = {**sc.key(), "first_fault": f"{first[0]}#{first[1]} -> {first[2]} (creation of the temporary file)",
+            "second_fault": None if second is None else f"{second[0]}#{second[1]} -> {second[2]}",
+            "trace_of_this_run": None if r["error"] else ft.describe(r["trace"]["ops"]), "exit": r["status"]}
+    if r["error"]:
+        chk.corr_failure("trace_translation", case, r["error"])
+        return
+    content = r["snapshot"].get(b"state.json.gz")
+    st = target_state(content, sc.old, sc.combo_payload)
+    others = sorted(k for k in r["snapshot"] if k != b"state.json.gz")
+    loaded, old_loaded = load_bytes(content), load_bytes(sc.old)
+    bad = []
+    if not st.startswith(("old", "new")):
+        bad.append(f"state file is {st}")
+    if second is None or second[2] != "kill":
+        if others:
+            bad.append(f"{len(others)} temporary file(s) left behind")
+    if loaded != old_loaded and not st.startswith("new"):
+        bad.append("storage.load restores neither the old nor the new session")
+    if bad:
+        chk.monitor_failure(
+            "fault_combination_old_or_new",
+            {"call": sc.action, "first": first[2], "second": None if second is None else ("crash" if second[2] == "kill" else "failure"),
+             "at": None if second is None else second[0]},
+            "temporary file cannot be created, then " + ("nothing else" if second is None else f"{second[2]} at {second[0]}#{second[1]}")
+            + ": " + "; ".join(bad), case)
+
+
+def save_sequences(chk):
+    """SEQUENCES in one process: save S; the file is removed / damaged / replaced by something else
+    (Core._load_state consumes it at the next start); save the SAME S again.  After every completed
+    save the file must hold exactly the saved state."""
+    import files_child
+
+    vlib.setup_impl()
+    from mopidy.core import Core
+    from mopidy.internal import storage
+
+    def damage(kind, p):
+        if kind == "removed":
+            p.unlink()
+        elif kind == "truncated":
+            p.write_bytes(p.read_bytes()[:20])
+        elif kind == "garbage":
+            p.write_bytes(b"not a state file")
+        elif kind == "older-state":
+            storage.dump(p, files_child.make_state(1, 99))
+        elif kind == "consumed-by-load_state":
+            Core(config={"core": {"max_tracklist_length": 10000, "restore_state": True,
+                                  "data_dir": str(p.parent.parent)}}, mixer=None, backends=[])._setup()
+
+    for n in (0, 4):
+        for kind in ("removed", "truncated", "garbage", "older-state", "consumed-by-load_state", "untouched"):
+            for repeat in (1, 2):
+                root = Path(tempfile.mkdtemp(prefix="verif-c11-"))
+                try:
+                    (root / "core").mkdir()
+                    p = root / "core" / "state.json.gz"
+                    state = files_child.make_state(n, 5)
+                    problems = []
+                    for i in range(repeat + 1):
+                        storage.dump(p, state)
+                        if storage.load(p) != state:
+                            problems.append(f"after save #{i + 1} the file does not hold the saved state "
+                                            f"({'missing' if not p.exists() else 'other content'})")
+                        if i < repeat:
+                            damage(kind, p)
+                    others = sorted(x.name for x in p.parent.iterdir() if x.name != p.name)
+                    if others:
+                        problems.append(f"left: {others}")
+                    chk.count(1, nontrivial_key=("sequence", n, kind, repeat))
+                    chk.dist("save-sequence:" + kind)
+                    if problems:
+                        chk.monitor_failure("save_completes", {"call": "dump", "sequence": f"dump;{kind};dump", "state": "stale"},
+                                            "; ".join(problems), {"tracks": n, "between_the_saves": kind, "saves": repeat + 1})
+                finally:
+                    shutil.rmtree(root, ignore_errors=True)
+    # the same through the core: teardown, next start consumes the file, teardown again
+    root = Path(tempfile.mkdtemp(prefix="verif-c11-"))
+    try:
+        cfg = {"core": {"max_tracklist_length": 10000, "restore_state": True, "data_dir": str(root)}}
+        core = Core(config=cfg, mixer=None, backends=[])
+        p = root / "core" / "state.json.gz"
+        seen = []
+        for _ in range(3):
+            core._teardown()
+            seen.append(p.is_file() and storage.load(p) is not None)
+            core._setup()
+        chk.count(1, nontrivial_key=("sequence", "core"))
+        chk.dist("save-sequence:core-teardown-setup-teardown")
+        if not all(seen):
+            chk.monitor_failure("save_completes", {"call": "Core._teardown", "sequence": "teardown;setup;teardown", "state": "stale"},
+                                f"state file present and loadable after each shutdown: {seen}", {"shutdowns": 3})
+    finally:
+        shutil.rmtree(root, ignore_errors=True)
 
 
 def python_level_faults(chk):
